@@ -1538,4 +1538,106 @@ theorem ipcp_acks_only_assigned (T : Tables) (c : Cfg) (hc : c.proto = .ipcp) (e
   have h := ipcp_acks_only_assigned_of T (effCfg c (run T c (init c) evs)) (by simpa [effCfg] using hc) _ e p hp hk o ho ht
   exact poolOk_run T c evs _ (poolOk_init c) _ (by simpa [effCfg] using h)
 
+/-! ## silent peer: the automaton does not merely fall quiet, it leaves the timer-driven states -/
+
+/-- the state a list of actions ends in -/
+def finalSt (st0 : St) (l : List Action) : St :=
+  l.foldl (fun s a => match a with | .setState q => q | _ => s) st0
+
+theorem st_doEff (k : Send) (c : Cfg) (x : Ctx) (r : Run) (e : Eff) : (doEff k c x r e).s.st = r.s.st := by
+  cases e <;> rfl
+
+theorem st_foldEff (k : Send) (c : Cfg) (x : Ctx) (l : List Eff) (r : Run) :
+    (l.foldl (doEff k c x) r).s.st = r.s.st := by
+  induction l generalizing r with
+  | nil => rfl
+  | cons e es ih => simp only [List.foldl_cons]; rw [ih, st_doEff]
+
+theorem st_foldAct (T : Tables) (c : Cfg) (x : Ctx) (l : List Action) (r : Run) :
+    (l.foldl (doAct T c x) r).s.st = finalSt r.s.st l := by
+  induction l generalizing r with
+  | nil => rfl
+  | cons a as ih =>
+    simp only [List.foldl_cons, finalSt]
+    rw [ih]
+    cases a with
+    | irc => rfl
+    | zrc => rfl
+    | scr => simp only [doAct, doSend, st_foldEff, finalSt]
+    | str => simp only [doAct, doSend, st_foldEff, finalSt]
+    | sta => simp only [doAct, doSend, st_foldEff, finalSt]
+    | setState q => rfl
+    | stopTimer => rfl
+
+/-- decidable table property: `timeout()` has nothing before its switch, and whenever it ends in a timer-driven
+    state (Closing, Stopping, Req-Sent, Ack-Rcvd, Ack-Sent) it has armed the timer again -/
+def GoodWait (T : Tables) : Bool :=
+  (T.pre .timeout == []) &&
+  allSt.all fun st => allBool.all fun ra => allBool.all fun rp =>
+    let l := T.table .timeout st ⟨ra, rp⟩
+    !waiting (finalSt st l) || (taOf T l).armed == some true
+
+/-- the invariant of a silence: in a timer-driven state the timer runs -/
+def WaitOk (s : State) : Prop := waiting s.st = true → s.armed = true
+
+theorem waitOk_timeout {T : Tables} (hT : GoodWait T = true) (c : Cfg) (s : State) (hs : WaitOk s) :
+    WaitOk (step T c s .timeout).1 := by
+  unfold GoodWait at hT
+  simp only [Bool.and_eq_true, beq_iff_eq] at hT
+  obtain ⟨hpre, hall⟩ := hT
+  simp only [step, step0]
+  split
+  · simp only [fin]
+    unfold runHandler
+    simp only [hpre, List.foldl_nil, Bool.not_true, Bool.false_eq_true, ↓reduceIte]
+    intro hw
+    have hst := st_foldAct T (effCfg c s) {}
+      (T.table .timeout s.st ⟨false, decide (s.rc > 0)⟩) { s := { s with armed := false }, opts := [] }
+    have hrel := trel_foldAct false s.rc T (effCfg c s) {}
+      (T.table .timeout s.st ⟨false, decide (s.rc > 0)⟩) { s := { s with armed := false }, opts := [] }
+      ⟨none, 0, false⟩ ⟨rfl, fun _ => by simp⟩
+    have hg := List.all_eq_true.mp (List.all_eq_true.mp (List.all_eq_true.mp hall s.st (mem_allSt _)) false (mem_allBool _))
+      (decide (s.rc > 0)) (mem_allBool _)
+    simp only [Bool.or_eq_true, Bool.not_eq_true', beq_iff_eq] at hg
+    simp only at hst hw
+    rw [hst] at hw
+    rcases hg with hg | hg
+    · rw [hg] at hw; cases hw
+    · rw [hrel.1]
+      simp only [taOf] at hg
+      rw [hg]; rfl
+  · exact hs
+
+theorem waitOk_timeouts {T : Tables} (hT : GoodWait T = true) (c : Cfg) (n : Nat) (s : State) (hs : WaitOk s) :
+    WaitOk (timeouts T c s n) := by
+  induction n generalizing s with
+  | zero => simpa [timeouts, run] using hs
+  | succ n ih =>
+    have := ih (step T c s .timeout).1 (waitOk_timeout hT c s hs)
+    simpa [timeouts, run, List.replicate_succ] using this
+
+/-- If, when the peer falls silent, the automaton is not already waiting without a timer, then after at most
+    `max(initRc,0)+1` expiries it rests: no timer armed AND not in a timer-driven state. -/
+theorem silent_peer_stops_partial_of {T : Tables} (hT : GoodTO T = true) (hW : GoodWait T = true) (c : Cfg)
+    (evs : List Ev) (h0 : WaitOk (run T c (init c) evs)) :
+    ∃ n, n ≤ (max (initRc c) 0).toNat + 1 ∧
+      (timeouts T c (run T c (init c) evs) n).armed = false ∧
+      waiting (timeouts T c (run T c (init c) evs) n).st = false := by
+  obtain ⟨n, hn, ha⟩ := silent_peer_stops_of hT c evs
+  refine ⟨n, hn, ha, ?_⟩
+  have hw := waitOk_timeouts hW c n _ h0
+  cases hwt : waiting (timeouts T c (run T c (init c) evs) n).st with
+  | false => rfl
+  | true => rw [hw hwt] at ha; cases ha
+
+/-- without an armed timer, timer expiries change nothing -/
+theorem timeouts_unarmed (T : Tables) (c : Cfg) (s : State) (ha : s.armed = false) (n : Nat) : timeouts T c s n = s := by
+  induction n with
+  | zero => rfl
+  | succ n ih =>
+    have h1 : (step T c s .timeout).1 = s := by simp [step, step0, ha]
+    have : timeouts T c s (n + 1) = timeouts T c (step T c s .timeout).1 n := by
+      simp [timeouts, run, List.replicate_succ]
+    rw [this, h1, ih]
+
 end Bng.Ncp
